@@ -226,7 +226,18 @@ def run(c, facts, tier):
                     if q.get("k") == "mcall" and q["m"] in ("filter_map",):
                         inside_swallow = True
                     q = parents.get(id(q))
-                if collected and not inside_swallow:
+                # the closure handed to a short-circuiting adaptor whose own result is then passed on
+                sc_ = parents.get(id(up))
+                sc_ok = False
+                if sc_ is not None and sc_.get("k") == "mcall" and sc_["m"] in ("try_for_each", "try_fold") and any(a_ is up for a_ in sc_["args"]):
+                    cons = parents.get(id(sc_))
+                    node_ = sc_
+                    while cons is not None and ((cons.get("k") == "expr" and not cons.get("semi") and cons.get("e") is node_) or (cons.get("k") == "block" and cons["stmts"] and cons["stmts"][-1] is node_)):
+                        node_, cons = cons, parents.get(id(cons))
+                    sc_ok = cons is None or cons.get("k") in ("try", "fn", "return")
+                if sc_ok and not inside_swallow:
+                    c.ob("C12.propagate", fn.key, "%s(..) [%s]" % (name, src(cl)[:50]), True, "the first error stops %s(..) and is passed on" % sc_["m"], nontrivial=False)
+                elif collected and not inside_swallow:
                     c.ob("C12.propagate", fn.key, "%s(..) [%s]" % (name, src(cl)[:50]), True, "errors collected into CResult<Vec<_>> and propagated with ?", nontrivial=False)
                 else:
                     c.ob("C12.propagate", fn.key, "%s(..) [%s]" % (name, src(cl)[:50]), None, "result produced inside a closure whose consumer was not recognised")
